@@ -156,7 +156,7 @@ def run_slice(args):
                         ent['case'] = concretize_case(prog, pr, m)
             # reservoir sample of explored paths for translator validation against the real macro
             nval = sl.get('validate', 6)
-            if nval:
+            if nval and not pr.notes.get('skip_validation'):
                 seen_ok = res['kinds'].get('ok', 0)
                 if len(res['validate']) < nval:
                     res['validate'].append(concretize_case(prog, pr, None))
@@ -248,4 +248,16 @@ def replay_cases(cases, name):
             r = cands[0]
             out.append(('mismatch', dict(predicted=rsview.show(replay.unsplit(c['pred'] or []))[:1200],
                                          recorded=rsview.show(replay.unsplit(replay.rec_split(r['output'])))[:1200] if 'output' in r else 'PANIC')))
+    # a case without a record: one unparsable item (token slices produce them) makes rustc give up on the whole client crate, so
+    # retry those cases one crate each; a case that rustc then still does not hand to the macro is not Rust and says nothing about
+    # the translator ('unparsable', not counted); a record whose input differs from the printed input is a genuine mismatch
+    retry = [i for i, (st_, _) in enumerate(out) if st_ == 'norecord'][:40]
+    if retry and len(cases) > 1:
+        for i in retry:
+            sub, _ = replay_cases([cases[i]], name + '_one')
+            out[i] = sub[0]
+    elif retry and len(cases) == 1:
+        out[0] = ('unparsable', 'rustc does not hand this input to the macro') if not recs else \
+            ('mismatch', dict(predicted_input=rsview.show(replay.unsplit(cases[0]['item_flat']))[:600],
+                              recorded_input=rsview.show(replay.unsplit(replay.rec_split(recs[0]['input'])))[:600]))
     return out, dict(client_wall_s=round(dt, 1), records=len(recs))
